@@ -28,6 +28,22 @@ def compress(text):
     return rt
 
 
+def eof_programs():
+    """blocks that are never closed (alone, after other statements, nested, inside a procedure)"""
+    openers = {"for": ["FOR I% = 1 TO 3", "  PRINT I%"], "while": ["WHILE X% < 3", "  X% = X% + 1"], "do": ["DO", "  X% = X% + 1"],
+               "if": ["IF X% = 0 THEN", "  PRINT 1"], "ifelse": ["IF X% = 0 THEN", "  PRINT 1", "ELSE", "  PRINT 2"],
+               "select": ["SELECT CASE X%", "CASE 1", "  PRINT 1"], "selectelse": ["SELECT CASE X%", "CASE ELSE", "  PRINT 1"],
+               "sub": ["SUB P", "  PRINT 1"], "function": ["FUNCTION F%", "  F% = 1"], "type": ["TYPE T", "  A AS INTEGER"],
+               "sub-for": ["SUB P", "  FOR I% = 1 TO 2", "    PRINT I%"], "for-while": ["FOR I% = 1 TO 2", "  WHILE X% < 1", "    X% = 1"]}
+    out = []
+    for name, lines in openers.items():
+        out.append((name, lines))
+        out.append((name + "/after", ["X% = 0", "' a comment", ""] + lines))
+        out.append((name + "/comment-last", lines + ["  ' the end"]))
+        out.append((name + "/blank-last", lines + [""]))
+    return out
+
+
 def enumerate_cases(tier, d):
     cases = []
     states = trans = 0
@@ -100,6 +116,8 @@ def run(tier, replay):
         trans += t1
         cases = [fix_case(c) for c in cases]
         simcases = [fix_case(c) for c in simcases]
+        if os.environ.get("VERIF_C11_ONLY_EOF"):      # development switch: only the end-of-input family
+            cases, simcases = cases[:50], []
     allcases = [("bfs", c) for c in cases] + [("sim", c) for c in simcases]
     built = [c11.build(c) for _, c in allcases]
     reqs = [{"op": "run", "text": b["text"], "budget": 200000} for b in built]
@@ -108,6 +126,22 @@ def run(tier, replay):
     for i, ((src, c), b, resp) in enumerate(zip(allcases, built, resps)):
         recs.append({"id": i + 1, "rt": compress(b["text"]), "len": len(b["text"]), "stmt": b["stmt"], "term": b["term"],
                      "sites": b["sites"], "stage": c["stage"], "fams": c["fams"], "obs": observed(resp)})
+    # faults that only the end of the input reveals: the same text under every line-end convention
+    eof_cases = eof_programs()
+    eof_texts = []
+    for name, lines in eof_cases:
+        for final in (True, False):
+            for eol in ("\r\n", "\n", "\r"):
+                eof_texts.append((name, final, eol.join(lines) + (eol if final else "")))
+    eof_resps = pool.map([{"op": "run", "text": t, "budget": 20000} for _, _, t in eof_texts], timeout=40)
+    eof_recs = []
+    for k in range(0, len(eof_texts), 3):
+        grp = eof_texts[k:k + 3]
+        eof_recs.append({"id": len(recs) + len(eof_recs) + 1, "kind": "eof", "rts": [compress(t) for _, _, t in grp], "lens": [len(t) for _, _, t in grp],
+                         "obs": [observed(r) for r in eof_resps[k:k + 3]], "name": grp[0][0], "final": grp[0][1], "text": grp[0][2]})
+    eof_by_id = {r["id"]: r for r in eof_recs}
+    nmain = len(recs)
+    recs = recs + [{k: v for k, v in r.items() if k not in ("name", "final", "text")} for r in eof_recs]
     verdicts = {}
     chunk = 20000
     cmd3 = ""
@@ -131,6 +165,15 @@ def run(tier, replay):
     if missing:
         raise ToolError("Trace_Diag gave no verdict for %d records (first id %d)" % (len(missing), missing[0]))
     bystage, byfault, bywhat = {}, {}, {}
+    for rid_, er in sorted(eof_by_id.items()):
+        v, what = verdicts[rid_]
+        if v == "AGREE":
+            continue
+        bywhat[what] = bywhat.get(what, 0) + 1
+        rep.violation({"case": {"eof-fault": er["name"], "line_end_after_last_line": er["final"]}, "rendered_text": er["text"],
+                       "observed_crlf_lf_cr": er["obs"], "judgement": what,
+                       "expected": "a static error with one position, the same under CR LF / LF / CR, on a row of the text"},
+                      {"what:" + what, "eof-fault:" + er["name"]}, name="eof")
     for i, ((src, c), b, resp) in enumerate(zip(allcases, built, resps)):
         v, what = verdicts[i + 1]
         bystage[c["stage"]] = bystage.get(c["stage"], 0) + 1
@@ -160,9 +203,9 @@ def run(tier, replay):
                 "already-returned helper calls, prior handled error); non-trivial = every case carries a fault the real code must "
                 "report; distinct by text"
                 % (len(cases), len(c11.FAULTS) + len(c11.HOSTS) * len(c11.EXPRS), len(c11.FAULTS), len(c11.HOSTS), len(c11.EXPRS), len(simcases)),
-        "samples": [{"case": allcases[i][1], "observed": recs[i]["obs"]} for i in range(0, len(recs), max(1, len(recs) // 3))][:3],
+        "samples": [{"case": allcases[i][1], "observed": recs[i]["obs"]} for i in range(0, nmain, max(1, nmain // 3))][:3],
         "states": states, "transitions": trans, "traces_validated_against_impl": len(recs),
-        "by_stage": bystage, "by_fault": byfault, "mismatch_kinds": bywhat,
+        "by_stage": bystage, "by_fault": byfault, "mismatch_kinds": bywhat, "end_of_input_faults_x_line_ends": len(eof_recs),
         "design_check": {"module": "MC_Text", "invariants": ["MachineIsDefinition", "RowsMonotone", "RunMachineIsMachine"]},
         "checker_cmd": "; ".join(x for x in (mc.cmd, cmd1, cmd2, cmd3) if x), "exhaustive": False,
     }
